@@ -35,7 +35,7 @@ RULE = ('seeded small worlds (1-4 segments, <=3 channels, optional index file, D
         'while a library-owned handle had been opened')
 EXPECTED_PROBES = ['eio:read-raised', 'corrupt:raised', 'corrupt:survived', 'foreign-index', 'close-with-suspended-generator',
                    'read-after-close:raised', 'read-after-close:cache-hit', 'writer-block-raises', 'writer-block-enospc', 'realfs-fd-check',
-                   'index-present', 'overlapping-files', 'open-fails:raised', 'writer-open-fails', 'interrupt:raised', 'writer-re-entered']
+                   'index-present', 'overlapping-files', 'open-fails:raised', 'writer-open-fails', 'interrupt:raised', 'writer-re-entered', 'dropped-without-close']
 ASSUMPTIONS = ['every open() call the library makes on a path is made to fail in turn (EMFILE for the data file, EACCES for the index file) in the path scenarios and in the TdmsWriter with-block; failures of seek()/tell() are not injected; a full disk (ENOSPC at every write event in turn) is injected for the TdmsWriter with-block only',
                'descriptors left open when TdmsFile.open(...) itself raises are not judged (the statement does not list it)']
 
@@ -391,6 +391,35 @@ def execute(case):
     # (6) RealFS sample: /proc/self/fd
     if only is None or only[0] == 'realfs':
         res.violations += realfs_check(case, w, data, index, res)
+    # (6b) a lazily opened TdmsFile on a caller's stream is dropped without close(): garbage collection must not close
+    # what the caller owns
+    if only is None or only[0] == 'gc':
+        import gc
+        res.sub_evals += 1
+        with store(record=False) as st:
+            st.put('w.tdms', data)
+            try:
+                tf = lib.TdmsFile.open(st.fs.stream('w.tdms'))
+                chans = [c for g in tf.groups() for c in g.channels()]
+                for c in chans[:2]:
+                    try:
+                        c[:]
+                    except Exception:
+                        pass
+                del tf, chans
+                try:
+                    del c
+                except NameError:
+                    pass
+                gc.collect()
+                res.probe('dropped-without-close')
+                fc = st.fs.foreign_closed()
+                if fc:
+                    res.violations.append(V('C20.caller-stream-closed', 'a TdmsFile opened on a caller-owned stream was dropped '
+                                            'without close(); garbage collection closed the caller\'s stream(s): %s' % [h.name for h in fc],
+                                            phase='gc'))
+            except Exception:
+                pass
     # (7) several TdmsFile objects with overlapping lifetimes on different files
     if only is None or only[0] == 'overlap':
         res.violations += overlap(case, w, wo, index, res, only)
